@@ -6,7 +6,7 @@ use serde_json::{json, Value};
 
 use crate::bfs::{Step, System};
 use crate::refmodel::{kind_name, msg_json, msg_str, own, padded, OPS};
-use crate::refsign::{Open, RefSign};
+use crate::refsign::{Open, PagesRule, RefSign};
 use crate::util::catch;
 
 pub const OWN: u16 = 3;
@@ -319,7 +319,7 @@ impl System for SignSys {
         let before = if self.oracle == Oracle::NoPanic { s.real.state() } else { model.state };
         let was_receiving = matches!(before, State::ConfigInProgress | State::PixelsInProgress);
         let r = catch(|| real.process_message(m).map(|x| own(&x)));
-        let (want_reply, open) = model.step(m);
+        let (want_reply, open, pages_rule) = model.step2(m);
         let mut viol = vec![];
         let mut tags = 0u64;
         let ctx = || format!("{} in state {:?}", msg_str(m), before);
@@ -385,7 +385,10 @@ impl System for SignSys {
                         if real.sign_type() != model.typ {
                             viol.push(("sign-type".into(), format!("{}-in-{:?}", kind, before), format!("{}: sign_type {:?}, expected {:?}", ctx(), real.sign_type(), model.typ)));
                         }
-                        if !pages_equal(&real, &model) {
+                        if pages_rule == PagesRule::Adopt && real.pages().iter().all(|p| (p.width(), p.height()) == (model.w, model.h)) {
+                            model.adopt_pages(real.pages().iter().map(|p| p.as_bytes().to_vec()).collect());
+                        }
+                        if pages_rule == PagesRule::Exact && !pages_equal(&real, &model) {
                             viol.push((
                                 "pages".into(),
                                 format!("{}-in-{:?}", kind, before),
@@ -501,7 +504,7 @@ pub struct BusState {
     pub shadow: Vec<RefSign>,
 }
 
-fn receiving(s: State) -> bool {
+pub fn receiving(s: State) -> bool {
     matches!(s, State::ConfigInProgress | State::PixelsInProgress)
 }
 
@@ -514,7 +517,7 @@ fn addressed_to(m: &Message<'_>) -> Option<u16> {
     }
 }
 
-fn obs_equal(a: &VirtualSign<'_>, b: &VirtualSign<'_>) -> bool {
+pub fn obs_equal(a: &VirtualSign<'_>, b: &VirtualSign<'_>) -> bool {
     a.state() == b.state() && a.sign_type() == b.sign_type() && a.pages().len() == b.pages().len() && a.pages().iter().zip(b.pages()).all(|(x, y)| x == y)
 }
 
